@@ -49,6 +49,21 @@ def cases(tier, rng):
                 for m in {n + 1, max(n - 1, 0), (n + 128), 0} - {n}:
                     yield Case(f"prt.wr {hx} lay:{i}:{j}:{m}", expect="refused 1 -", tag="edit-layers")
                 yield Case(f"prt.wr {hx} cnt:{i}:{j}:{(n + 1) & 127}", expect="refused 1 -", tag="edit-count")
+    yield from cancelling_cases(rng, 12 if tier == "quick" else 60)
+
+def cancelling_cases(rng, n):
+    """two frames (same or different animations) whose mismatches cancel in every total: count a with b layers and
+    count b with a layers — a check on sums alone would accept them"""
+    for _ in range(n):
+        same = rng.random() < 0.5
+        a_, b_ = rng.sample([0, 1, 2, 3, 5, 126, 127], 2)
+        def fr(c): return R.gen_frame(rng, c, rng.randrange(2), rng.randrange(2))
+        if same: anims = [R.Anim([rng.randrange(1 << 32) for _ in range(8)], [fr(a_), fr(b_)], [])]
+        else: anims = [R.Anim([rng.randrange(1 << 32) for _ in range(8)], [fr(a_)], []), R.Anim([0] * 8, [fr(b_)], [])]
+        art = R.Art([], [], anims, 0)
+        hx = R.encode(art).hex()
+        j2 = (0, 1) if same else (1, 0)
+        yield Case(f"prt.wr {hx} cnt:0:0:{b_},cnt:{j2[0]}:{j2[1]}:{a_}", expect="refused 1 -", tag="cancelling-mismatches")
 
 def search(drv, model, diverged, lean, rng):
     cs = list(cases("thorough", rng))
